@@ -14,7 +14,7 @@ CHECKS = {
    design="6/C01"),
  "C02": dict(
    technique="stateful property-based testing on the deterministic swarm runtime (virtual time, generated segmentation and schedules) + generated real-process end-to-end runs of unmodified Session::run() in private network namespaces",
-   text="Layer 1: generated honest swarms (1-4 peers, piece subsets, unchoke delays, late Haves, keep-alives, unknown messages, chokes, non-essential disconnects, every message possibly cut anywhere) must lead to all pieces Have within 60 virtual minutes, no panic, no honest connection ended with an error, byte-identical extracted files. Layer 2: the unmodified client in a real process with a fake HTTP tracker (optionally failing first) and honest fake peers must write identical output files (healthy ~1 s, deadline 60 s, one confirming re-run).",
+   text="Layer 1: generated honest swarms (1-4 peers, piece subsets, unchoke delays, late Haves, keep-alives, unknown messages, chokes, non-essential disconnects, every message possibly cut anywhere) must lead to all pieces Have within 60 virtual minutes, never 200 virtual seconds of standstill while an unchoking honest peer offers a missing piece (hang), no panic, no honest connection ended with an error, byte-identical extracted files. Layer 2: the unmodified client in a real process with a fake HTTP tracker (optionally failing first) and honest fake peers must write identical output files (healthy ~1 s, deadline 60 s, one confirming re-run).",
    note="Liveness decided up to the stated horizons. A dropped essential peer is reconnected by the harness (as a tracker would hand it out again). Layer 2 uses real time and unshare(CLONE_NEWNET); a child killed by the watchdog is inconclusive (exit 2), never a violation.",
    design="6/C02"),
  "C03": dict(
